@@ -4,6 +4,7 @@
  */
 #include "common.h"
 #include "ops.h"
+#include "memtrack.h"
 #include <zlib.h>
 
 extern int next_backend_desc;
@@ -46,7 +47,8 @@ void suite_force(int tier) {
                 case 3: { uint64_t bit = rnd64() % ((s.flen - HDR) * 8); m[HDR + bit / 8] ^= (unsigned char)(1u << (bit % 8)); } break;  /* payload bit (CRC32 only) */
                 case 0: m[54] ^= (unsigned char)(1 + rnd(255)); reseal(m); break;                       /* backend id */
                 case 1: { uint32_t v; memcpy(&v, m + 55, 4); v += 1 + rnd(3); memcpy(m + 55, &v, 4); reseal(m); } break;  /* backend version */
-                default: { uint32_t v = (uint32_t)(s.n + rnd(5)); memcpy(m, &v, 4); reseal(m); } break;   /* index out of range */
+                default: { uint32_t ix[] = { (uint32_t)(s.n + rnd(5)), (uint32_t)s.n, 0xffffffffu, 0x80000000u, 0x7fffffffu, 0x80000000u + rnd(40), 0xffffff00u + rnd(256) };
+                           uint32_t v = ix[rnd(7)]; memcpy(m, &v, 4); reseal(m); } break;   /* index out of range, also values that are negative as an int */
                 }
                 copies[ncopies++] = m; fr[n++] = (char *)m;
                 char key[32]; snprintf(key, sizeof key, "force.damage_kind_%d", kind); stat_add(key, 1);
@@ -88,7 +90,8 @@ static void force_sweep(cfg_t c, size_t len) {
                     switch (kind++ % (c.ct == 2 ? 6 : 3)) {
                     case 0: m[54] ^= 0x10; reseal(m); break;
                     case 1: { uint32_t v; memcpy(&v, m + 55, 4); v += 1; memcpy(m + 55, &v, 4); reseal(m); } break;
-                    case 2: { uint32_t v = (uint32_t)n; memcpy(m, &v, 4); reseal(m); } break;
+                    case 2: { uint32_t ix[] = { (uint32_t)n, 0xffffffffu, 0x80000000u, (uint32_t)n + 1, 0x7fffffffu, 0x80000000u + (uint32_t)i };
+                              uint32_t v = ix[(kind / 6) % 6]; memcpy(m, &v, 4); reseal(m); } break;
                     case 3: m[HDR + (kind % (s.flen - HDR))] ^= 0x04; break;
                     case 4: { m[HDR] ^= 0x80; uint32_t v = 0; if ((uint32_t)crc32(0, m + HDR, (uInt)(s.flen - HDR)) == v) v = 7; memcpy(m + 21, &v, 4); reseal(m); } break;
                     default: m[s.flen - 1] ^= 0x01; break;
@@ -180,7 +183,17 @@ static void run_args(void *va, FILE *out) {
     run_args_inner(a, out, 0);
 }
 
+static void run_args_once(args_a *a, FILE *out, int forced_desc);
 static void run_args_inner(args_a *a, FILE *out, int forced_desc) {
+    if (mt_available()) {
+        /* the blocks are counted on the second of two identical calls: one-time allocations of libc and the loader
+           (syslog, dlerror strings, stdio buffers) happen on the first, a leak of the library on every call */
+        char *b = NULL; size_t n = 0; FILE *tmp = open_memstream(&b, &n);
+        run_args_once(a, tmp, forced_desc); fclose(tmp); free(b);
+    }
+    run_args_once(a, out, forced_desc);
+}
+static void run_args_once(args_a *a, FILE *out, int forced_desc) {
     stripe_t *s = a->s;
     int live = s->desc;
     int dead = -4242;
@@ -192,6 +205,8 @@ static void run_args_inner(args_a *a, FILE *out, int forced_desc) {
     }
     int d = forced_desc ? forced_desc : (a->a[0] == 2 ? dead : desc_of(a->a[0], live));
     int rc = 12345;
+    /* plain build: whatever the call answers, it (together with its cleanup call after a success) keeps nothing */
+    long b0 = 0; if (mt_available()) { mt_on(); b0 = mt_blocks(); }
     switch (a->api) {
     case A_ENC: {
         char **ed = (char **)0x1, **ep = (char **)0x1; uint64_t fl = 7;   /* poisoned outputs: must not be touched on error */
@@ -215,6 +230,7 @@ static void run_args_inner(args_a *a, FILE *out, int forced_desc) {
         if (a->a[5] >= 4) { fr = short_guarded(s->all, s->n, fl); if (g_progress) snprintf(g_progress, 200, "in decode with fragment_len=%llu and buffers of exactly that size", (unsigned long long)fl); }
         rc = liberasurecode_decode(d, a->a[1] ? NULL : fr, n, fl, a->a[6], a->a[2] ? NULL : &od, a->a[3] ? NULL : &ol);
         if (rc == 0) liberasurecode_decode_cleanup(d, od);
+        if (fr != s->all) free(fr);
         break; }
     case A_DEC_CLEAN: {
         char *p = a->a[1] ? NULL : malloc(16);
@@ -230,6 +246,7 @@ static void run_args_inner(args_a *a, FILE *out, int forced_desc) {
         if (a->a[4] >= 3) { fr = short_guarded(s->all + 1, s->n - 1, fl); if (g_progress) snprintf(g_progress, 200, "in reconstruct with fragment_len=%llu and buffers of exactly that size", (unsigned long long)fl); }
         rc = liberasurecode_reconstruct_fragment(d, a->a[1] ? NULL : fr, n, fl, dest, a->a[2] ? NULL : of);
         free(of);
+        if (fr != s->all + 1) free(fr);
         break; }
     case A_NEED: {
         int r[3] = { 0, -1, -1 }, x[2] = { -1, -1 }, o[64];
@@ -248,7 +265,9 @@ static void run_args_inner(args_a *a, FILE *out, int forced_desc) {
         break; }
     case A_SIZES: {
         int r1 = liberasurecode_get_aligned_data_size(d, 100), r2 = liberasurecode_get_fragment_size(d, 100), r3 = liberasurecode_get_minimum_encode_size(d);
+        long lk = mt_available() ? mt_blocks() - b0 : 0;      /* before the first write to `out` allocates its buffer */
         fprintf(out, "%d %d %d", r1, r2, r3);
+        if (lk) fprintf(out, " LEAK%ld", lk);
         return; }
     case A_DESTROY:
         rc = liberasurecode_instance_destroy(a->a[0] == 0 ? dead : d);   /* never destroy the shared live one */
@@ -258,9 +277,12 @@ static void run_args_inner(args_a *a, FILE *out, int forced_desc) {
         break;
     case A_AVAIL:
         rc = liberasurecode_backend_available((ec_backend_id_t)a->a[1]);
+        if (mt_available()) b0 = mt_blocks();     /* the loader keeps the text of a failed dlopen: libc's blocks, not the library's */
         break;
     }
+    long lk = mt_available() ? mt_blocks() - b0 : 0;
     fprintf(out, "%d", rc);
+    if (lk) fprintf(out, " LEAK%ld", lk);
 }
 
 static void args_emit(args_a *a, int nargs) {
@@ -271,8 +293,11 @@ static void args_emit(args_a *a, int nargs) {
     stat_add("args.calls", 1);
 }
 
+void warmup(cfg_t c);
 void suite_args(int tier) {
     cfg_t cfgs[3] = { { 6, 3, 2, 2, 2 }, { 3, 5, 5, 3, 1 }, { 0, 4, 2, 2, 1 } };
+    /* plain build: libc's and the loader's one-time allocations happen before the children count blocks */
+    if (mt_available()) { for (int ci = 0; ci < 3; ci++) warmup(cfgs[ci]); liberasurecode_backend_available((ec_backend_id_t)4); liberasurecode_backend_available((ec_backend_id_t)99); }
     for (int ci = 0; ci < 3; ci++) {
         stripe_t s;
         if (stripe_make(&s, cfgs[ci], 100, 0, 0) != 0) { oracle_fail("C13", "cannot set up configuration %d", ci); continue; }
